@@ -175,3 +175,97 @@ def fuel_vol(env, **cfg):
     share = env.frac(1, 2) if s["symmetry"] else env.frac(1)
     env.eq("C16", "fuel-volume margin == enclosed volume - required fuel volume (half share for a symmetric surface)",
            np.asarray(d).reshape(-1)[0], vols.sum() - share * (fb + s["Wf_reserve"]) / s["fuel_density"])
+
+
+def dangling_inputs(p, scope, allowed=()):
+    """inputs below `scope` of a set-up model that are left unconnected although a component below the same scope computes
+    an output of the same local name (the value the input silently keeps is its declared default)"""
+    m = p.model
+    conn = m._conn_global_abs_in2out
+    outs = {}
+    for a in m._var_allprocs_abs2meta["output"]:
+        if not a.startswith("_auto_ivc") and a.startswith(scope):
+            outs.setdefault(a.rsplit(".", 1)[-1], []).append(a)
+    res = []
+    for tgt, src in sorted(conn.items()):
+        if src.startswith("_auto_ivc") and tgt.startswith(scope):
+            loc = tgt.rsplit(".", 1)[-1]
+            if loc in outs and loc not in allowed:
+                res.append("%s (computed by %s)" % (tgt, outs[loc][0]))
+    return res
+
+
+@job("c16.struct_alone_wiring", ("C16", "C10", "C15"),
+     cfgs=product([dict(model="tube"), dict(model="wingbox")], [dict(relief=False), dict(relief=True)], [dict(fuel=False), dict(fuel=True)], [dict(npm=0), dict(npm=2)]))
+def struct_alone_wiring(env, model, relief, fuel, npm):
+    """the structures-only group hands every quantity one of its parts computes to the parts that read it: no input of the
+    group keeps its declared default while a component of the group computes a variable of that name (element masses for
+    the weight relief, nodes, section properties, displacements ...).  Real connection table of the real SpatialBeamAlone for
+    every combination of structural options.  fuel_vols / fuel_mass are connected by the user's script (documented pattern)."""
+    import openmdao.api as om
+    import warnings
+    from ..surfaces import surface
+    s = surface(name="wing", nx=2, ny=3, model=model, struct_weight_relief=relief, distributed_fuel_weight=fuel, n_point_masses=npm)
+    if npm == 0:
+        s.pop("n_point_masses", None)
+    p = om.Problem(reports=False)
+    p.model.add_subsystem("wing", cls("structures.struct_groups.SpatialBeamAlone")(surface=s))
+    with warnings.catch_warnings():
+        warnings.simplefilter("ignore")
+        p.setup()
+        p.final_setup()
+    d = dangling_inputs(p, "wing.", allowed=("fuel_vols", "fuel_mass"))
+    env.holds("C16,C10,C15", "SpatialBeamAlone: no input is left at its default while the group computes a variable of that name", not d, "; ".join(d[:4]))
+    n_in = len([a for a in p.model._conn_global_abs_in2out if a.startswith("wing.")])
+    env.holds("C16", "the wiring scan saw the group's inputs", n_in > 30, "%d inputs" % n_in)
+
+
+@job("c16.aerostruct_point_wiring", ("C16", "C15", "C11", "C17"), cfgs=[dict(nsurf=1, relief=False, npm=0), dict(nsurf=2, relief=True, npm=2)])
+def aerostruct_point_wiring(env, nsurf, relief, npm):
+    """the same for the coupled analysis point of a complete aerostructural model built the documented way (geometry groups
+    connected to the point as in the repository's examples), with one and with two structural surfaces: inside the point
+    every surface's performance group reads that surface's own displacements, loads, forces ..."""
+    import openmdao.api as om
+    import warnings
+    from ..surfaces import surface
+    from openaerostruct.integration.aerostruct_groups import AerostructGeometry, AerostructPoint
+    surfs = []
+    for k in range(nsurf):
+        s = surface(name=["wing", "tail"][k], nx=2, ny=3, model="tube", struct_weight_relief=relief, n_point_masses=npm, xshift=3.0 * k)
+        if npm == 0:
+            s.pop("n_point_masses", None)
+        surfs.append(s)
+    p = om.Problem(reports=False)
+    ivc = om.IndepVarComp()
+    for n_, v_, u_ in (("v", 248., "m/s"), ("alpha", 5., "deg"), ("Mach_number", .84, None), ("re", 1e6, "1/m"), ("rho", .38, "kg/m**3"),
+                       ("CT", 1e-4, "1/s"), ("R", 1e6, "m"), ("W0", 1e4, "kg"), ("speed_of_sound", 295., "m/s"), ("load_factor", 1., None),
+                       ("empty_cg", np.zeros(3), "m")):
+        ivc.add_output(n_, val=v_, units=u_)
+    p.model.add_subsystem("prob_vars", ivc, promotes=["*"])
+    for s in surfs:
+        p.model.add_subsystem(s["name"], AerostructGeometry(surface=s))
+    p.model.add_subsystem("AS", AerostructPoint(surfaces=surfs),
+                          promotes_inputs=["v", "alpha", "Mach_number", "re", "rho", "CT", "R", "W0", "speed_of_sound", "empty_cg", "load_factor"])
+    for s in surfs:
+        n = s["name"]
+        com = "AS.coupled." + n
+        p.model.connect(n + ".local_stiff_transformed", com + ".local_stiff_transformed")
+        p.model.connect(n + ".nodes", com + ".nodes")
+        p.model.connect(n + ".mesh", com + ".mesh")
+        for v_ in ("radius", "thickness"):
+            p.model.connect(n + "." + v_, "AS." + n + "_perf." + v_)
+        p.model.connect(n + ".nodes", "AS." + n + "_perf.nodes")
+        p.model.connect(n + ".cg_location", "AS.total_perf." + n + "_cg_location")
+        p.model.connect(n + ".structural_mass", "AS.total_perf." + n + "_structural_mass")
+        p.model.connect(n + ".t_over_c", "AS." + n + "_perf.t_over_c")
+        if relief:
+            p.model.connect(n + ".element_mass", com + ".element_mass")
+    with warnings.catch_warnings():
+        warnings.simplefilter("ignore")
+        p.setup()
+        p.final_setup()
+    d = dangling_inputs(p, "AS.", allowed=("fuel_vols", "fuel_mass"))
+    env.holds("C16,C15,C11,C17", "AerostructPoint: no input inside the point is left at its default while the point computes a variable of that name",
+              not d, "; ".join(d[:4]))
+    n_in = len([a for a in p.model._conn_global_abs_in2out if a.startswith("AS.")])
+    env.holds("C16", "the wiring scan saw the point's inputs", n_in > 100, "%d inputs" % n_in)
